@@ -132,6 +132,7 @@ Proof.
     rewrite Hu, Hi. unfold cnt in Hcnt. rewrite (cntc_s0 σ WC) in Hcnt. unfold cntof in Hcnt.
     destruct (aget cnt0 m) as [[|c]|]; try lia. reflexivity.
   - exact Hc.
+  - constructor.
 Qed.
 
 Lemma o_in_dom : In o R \/ aget ins o <> None.
@@ -145,12 +146,13 @@ Hypothesis gens_ok : forall f w n e, gens w n = Some e ->
   GOK g gens apply raises ins Good f w n e.
 
 (* The whole call.  [spnode (spq f) WC o = Some v]: composing the user functions recursively, every cache
-   lookup answered by "miss", yields v. *)
-Theorem call_refines f v σ :
+   lookup answered by "miss", yields v.  The final evaluator state s' carries the ghost list of completed
+   generators and the full invariant. *)
+Theorem call_refines_ghost f v σ :
   spnode gens ins (spq g gens apply raises ins f) WC o = Some v -> CInv σ ->
-  exists k s', (forall k', k <= k' ->
+  exists k (s' : rst cstore), (forall k', k <= k' ->
       run g gens apply raises cstore cget cset interfere k' (init_state g cstore ins o CEvaluate σ)
-      = Finished cstore v s') /\ CInv (sto cstore s').
+      = Finished cstore v (mk cstore [v] [CReturn] s')) /\ Inv s'.
 Proof.
   intros Hs Hc.
   assert (Hcnt : cnt cstore (s0 σ) o >= 1).
@@ -162,9 +164,19 @@ Proof.
               R (proj1 (proj2 (counts_ok g inputs 2 wfg o o Ho))) wfg Hclosed gens_ok f o (s0 σ) v Hs
               (Inv_s0 σ Hc) Hcnt o_in_dom) as (s' & Hnode & Hinv').
   destruct (sim_call g gens apply raises cstore cget cset interfere f o WC (s0 σ) v s' Hnode) as [k Hk].
-  exists k, (mk cstore [v] [CReturn] s'). split.
-  - intros k' Hle. rewrite init_is_s0. apply Hk. exact Hle.
-  - apply (i_cinv _ _ _ _ _ _ _ _ _ Hinv').
+  exists k, s'. split; [|exact Hinv'].
+  intros k' Hle. rewrite init_is_s0. apply Hk. exact Hle.
+Qed.
+
+Theorem call_refines f v σ :
+  spnode gens ins (spq g gens apply raises ins f) WC o = Some v -> CInv σ ->
+  exists k s', (forall k', k <= k' ->
+      run g gens apply raises cstore cget cset interfere k' (init_state g cstore ins o CEvaluate σ)
+      = Finished cstore v s') /\ CInv (sto cstore s').
+Proof.
+  intros Hs Hc. destruct (call_refines_ghost f v σ Hs Hc) as (k & s' & Hk & Hinv').
+  exists k, (mk cstore [v] [CReturn] s'). split; [exact Hk|].
+  apply (i_cinv _ _ _ _ _ _ _ _ _ Hinv').
 Qed.
 
 End Main.
